@@ -22,7 +22,16 @@ namespace zoo {
    {
       for (auto& r : table()) {
          c.current_row = r.name;
-         r.build(c);
+         try {
+            r.build(c);
+         }
+         catch (const std::exception& e) {
+            // every part a row reads was supplied (unsupplied parts are read through refuses()/absent()), so an
+            // exception escaping a row is an accessor refusing to return what the node was built from
+            if (c.rep and not c.prop.empty())
+               c.violation(c.prop, c.current_row + ":unexpected-exception", std::string("an accessor of a supplied part threw: ") + e.what());
+            else if (c.prop.empty() and c.rep) c.rep->member("rows_that_threw", c.current_row + ": " + e.what());
+         }
       }
       c.current_row = "constants-and-internals";
       register_constants_and_internals(c);
